@@ -146,4 +146,19 @@ PROPS = {
         "quick": {"runs": [{"test": "^TestC08$", "shards": 16, "checks": 400, "timeout": 600}]},
         "thorough": {"runs": [{"test": "^TestC08$", "shards": 16, "checks": 6000, "timeout": 3400}]},
     },
+    "C09": {
+        "title": "Uploads are exact, published atomically, and resumable after any cut",
+        "level": "exploration",
+        "rule": "rapid-generated (name, content with boundary sizes up to 256 KiB quick / 8 MiB thorough, 2 or 3 forks, PreserveResourceForks "
+                "on/off, target root or Uploads, optional pre-existing file) and a cut script of 0-4 connection cuts at offsets drawn from "
+                "{inside the 16-byte preamble, inside the flattened header, first data bytes, 32 KiB boundaries +-1, last byte, after the data "
+                "fork, uniform}, each followed by a resume from the offset the server reports, then a final uncut attempt; model = bytes "
+                "consumed by the server per attempt (net.Pipe: a cut after n bytes means exactly n bytes were consumed); oracle after every "
+                "cut: final name absent unless the data fork is complete, partial file == exact prefix, resume offset == prefix length; after "
+                "completion: file == content, no partial, re-upload refused, stale reference harmless, download returns the content; "
+                "non-trivial = at least one cut that left a non-empty partial file (followed by a resume); distinct = hash(name, content, cuts)",
+        "assumptions": ["each attempt is written with a single Write (segmentation is C02's subject)", "fork side files (.info_/.rsrc_) left after a cut are not constrained"],
+        "quick": {"runs": [{"test": "^TestC09$", "shards": 16, "checks": 250, "timeout": 600}]},
+        "thorough": {"runs": [{"test": "^TestC09$", "shards": 16, "checks": 4000, "timeout": 3400}]},
+    },
 }
